@@ -166,9 +166,10 @@ func c19Describe() {
 	rec := core.Rec("C19")
 	rec.Rule = "TestC19Enum: for every combination of TLS policy {none, opportunistic, mandatory} x auth {none, PLAIN-NOENC, LOGIN-NOENC, CRAM-MD5, XOAUTH2, SCRAM-SHA-256 (server rejects), AUTODISCOVER} x call {DialWithContext then Close, DialAndSend} x capability variant {STARTTLS+AUTH, no STARTTLS, no AUTH, foreign mechanism only} (+ untrusted server certificate for the TLS policies), the fault-free dialogue is recorded and EVERY step id in it is answered with each of {4yz, 5yz, drop, garbage}. " +
 		"TestC19: rapid draws configurations with 0..3 faults at drawn steps and 1..2 messages. " +
+		"TestC19TCP: real TCP with the library's DEFAULT dialers (net.Dialer; tls.Dialer for implicit TLS), implicit TLS and STARTTLS x auth {none, PLAIN, CRAM-MD5} x every step answered 554/451/garbage, plus handshakes that fail after the TCP connect succeeded (certificate of an unknown CA, certificate for another name, a plain-text speaker on the implicit-TLS port); oracle there: the server sees every connection end within 2 s of the call's return, with the garbage collector switched off. " +
 		"Oracle: connections are handed out through WithDialContextFunc as tracking net.Conns; when the call returned an error after a connection was opened, Close must have been called on it by the time the call returned; a successful DialAndSend sent QUIT and closed the connection; a connection closed by the caller (Client.Close) is closed even when QUIT fails. " +
 		"Non-trivial: every case with an injected failure or a failing call. Distinct by (policy, auth, capabilities, fault script, call, certificate)."
-	rec.Assumptions = []string{"in-memory transport through WithDialContextFunc; the default dialers (implicit TLS) are not exercised here", "server-side EOF is not used as the oracle (Close on the tracking connection is)"}
+	rec.Assumptions = []string{"TestC19/TestC19Enum: in-memory transport through WithDialContextFunc; the default dialers (implicit TLS) are exercised by TestC19TCP only", "server-side EOF is not used as the oracle (Close on the tracking connection is)"}
 }
 
 func TestC19Enum(t *testing.T) {
@@ -242,6 +243,9 @@ type c19TCPCase struct {
 	Step     string          `json:"step"`
 	Outcome  refsmtp.Outcome `json:"outcome"`
 	Caps     []string        `json:"caps"`
+	// Handshake (implicit TLS): "" = fine, "untrusted" = certificate of an unknown CA, "wrongname" =
+	// certificate for another host, "plaintext" = a plain-text SMTP speaker on the implicit-TLS port.
+	Handshake string `json:"handshake,omitempty"`
 }
 
 func c19TCPRun(c c19TCPCase) []*core.Violation {
@@ -255,7 +259,14 @@ func c19TCPRun(c c19TCPCase) []*core.Violation {
 	srv := refsmtp.NewServer(refsmtp.Script{Caps: c.Caps, Steps: steps, NoGreetProbe: true})
 	srv.Auth = c05Auth
 	srv.TLS = serverTLS(0)
-	ln, err := refsmtp.ListenTCP("127.0.0.1", srv, c.Implicit)
+	c07Certs()
+	switch c.Handshake {
+	case "untrusted":
+		srv.TLS = &tls.Config{Certificates: []tls.Certificate{c07Untrusted}, MinVersion: tls.VersionTLS12}
+	case "wrongname":
+		srv.TLS = &tls.Config{Certificates: []tls.Certificate{c07WrongName}, MinVersion: tls.VersionTLS12}
+	}
+	ln, err := refsmtp.ListenTCP("127.0.0.1", srv, c.Implicit && c.Handshake != "plaintext")
 	if err != nil {
 		return []*core.Violation{core.V("HARNESS-listen", "%v", err)}
 	}
@@ -285,10 +296,10 @@ func c19TCPRun(c c19TCPCase) []*core.Violation {
 			open++
 		}
 	}
-	rec.NonTrivial(core.Join("tcp", c.Implicit, c.Auth, c.Step, c.Outcome.Kind, c.Outcome.Code, strings.Join(c.Caps, ",")))
+	rec.NonTrivial(core.Join("tcp", c.Implicit, c.Auth, c.Step, c.Outcome.Kind, c.Outcome.Code, strings.Join(c.Caps, ","), c.Handshake))
 	rec.AddExtra("tcp_default_dialer_cases", 1)
 	if open > 0 {
-		return []*core.Violation{core.V("open-after-return-tcp", "DialAndSend over TCP with the default dialers (implicit TLS=%v, auth %q, fault %s=%s%d) returned %v but %d connection(s) were still open at the server 2 s later", c.Implicit, c.Auth, c.Step, c.Outcome.Kind, c.Outcome.Code, callErr, open)}
+		return []*core.Violation{core.V("open-after-return-tcp", "DialAndSend over TCP with the default dialers (implicit TLS=%v, handshake %q, auth %q, fault %s=%s%d) returned %v but %d connection(s) were still open at the server 2 s later", c.Implicit, c.Handshake, c.Auth, c.Step, c.Outcome.Kind, c.Outcome.Code, callErr, open)}
 	}
 	return nil
 }
@@ -324,10 +335,20 @@ func TestC19TCP(t *testing.T) {
 					if st == "" && o.Code != 554 {
 						continue
 					}
-					cases = append(cases, c19TCPCase{implicit, auth, st, o, caps})
+					cases = append(cases, c19TCPCase{implicit, auth, st, o, caps, ""})
 				}
 			}
-			cases = append(cases, c19TCPCase{implicit, auth, "", refsmtp.OK, []string{"8BITMIME"}})
+			cases = append(cases, c19TCPCase{implicit, auth, "", refsmtp.OK, []string{"8BITMIME"}, ""})
+			if implicit {
+				// the TCP connect succeeds, the TLS handshake does not
+				for _, hs := range []string{"untrusted", "wrongname", "plaintext"} {
+					cases = append(cases, c19TCPCase{implicit, auth, "", refsmtp.OK, caps, hs})
+				}
+			} else {
+				for _, hs := range []string{"untrusted", "wrongname"} {
+					cases = append(cases, c19TCPCase{implicit, auth, "", refsmtp.OK, caps, hs})
+				}
+			}
 			for _, c := range cases {
 				if v := p.RunOne(c); v != nil {
 					t.Fatalf("VIOLATION-DETAIL property=C19 %s", v)
